@@ -33,7 +33,9 @@ impl Hostile {
         let eps = all_eps();
         let mut fixed = Vec::new();
         let mut broken = Vec::new();
-        for (i, ep) in eps.iter().enumerate() {
+        // under the Miri interpreter only the random cases are replayed: recording 276 seed exchanges would take minutes
+        let eps_for_fixed: Vec<Ep> = if cfg!(miri) { vec![] } else { eps.clone() };
+        for (i, ep) in eps_for_fixed.iter().enumerate() {
             for k in 0 .. SEEDS_PER_EP {
                 // fixed seeds: independent of VERIF_SEED so that the sweeps are the same complete set on every run
                 let mut rng = Rng::for_case(0x5eed, "hostile-fixed", (i as u64) * 16 + k);
@@ -117,6 +119,12 @@ fn panic_tag(obs: &Obs) -> String {
 
 impl Check for Hostile {
     fn id(&self) -> &'static str { self.id }
+    fn miri_plan(&self, tier: Tier) -> Option<Vec<(u64, u64)>> {
+        if tier != Tier::Thorough || self.id != "C01" {
+            return None;
+        }
+        Some((0 .. 16).map(|i| (i * 40, 40)).collect())
+    }
     fn rule(&self) -> String {
         format!(
             "{} public entry points (every protocol query, per-game wrappers, master-server service, generic dispatch for every GAMES entry) x settings (retries 0-2, gather toggles, app-id check, timeouts None/Some) run against static hostile reply scripts derived from well-formed exchanges of the server models: (1) truncation of every reply at every byte offset for {} fixed seed exchanges, (2) every byte of those exchanges set to each of {:?}, (3) random mutations (byte/field extremes, extreme decimals, deleted terminators, VarInt inflation, invalid text, dropped/duplicated/reordered/empty/64 KiB datagrams, repeated challenge streams, random tails, random datagrams, fragment-header values, silence from any point). non-trivial = the client consumed at least one scripted datagram; distinct by (entry point, settings, script)",
